@@ -471,3 +471,46 @@ Theorem C20_detect_rehoming_refuted :
     <> spec_cls (k_render_method 2) ex_dpar (erase ops) c.
 Proof. exact detect_rehoming_refuted. Qed.
 Print Assumptions C20_detect_rehoming_refuted.
+
+(** ** Source tie of the render-method setters (gen/SettingsSrc.v is regenerated from
+    image/common.py on every run by harness/tx/tx_settings.py; model/SettingsProg.v gives the
+    translated attribute programs their meaning over the model's dictionaries) *)
+From TI Require Import model.SettingsProg gen.SettingsSrc proofs.SettingsSrcTie.
+
+(** class level, for every state, class, parent function and argument (None / a non-string /
+    any string, the empty one included): running the translated body IS the model's step *)
+Theorem C20_source_set_render_method_class :
+  forall (n : Z) (par : nat -> nat) (s : state) (c : nat) (m : marg),
+    (0 < n)%Z ->
+    cls_run n par s c m src_set_render_method_cls = step (k_render_method n) par s (op_of_cls c m).
+Proof. exact cls_prog_is_step_lemma. Qed.
+Print Assumptions C20_source_set_render_method_class.
+
+(** a style without render methods: a reset is accepted and changes nothing, anything else
+    is rejected and changes nothing *)
+Theorem C20_source_set_render_method_class_no_methods :
+  forall (n : Z) (par : nat -> nat) (s : state) (c : nat) (m : marg),
+    (n <= 0)%Z ->
+    cls_run n par s c m src_set_render_method_cls
+    = match m with MNone => ({| cd := cd s; idt := idt s |}, Ok) | _ => (s, Rejected) end.
+Proof. exact cls_prog_no_methods_lemma. Qed.
+Print Assumptions C20_source_set_render_method_class_no_methods.
+
+(** instance level *)
+Theorem C20_source_set_render_method_instance :
+  forall (n : Z) (par icls : nat -> nat) (s : state) (i : nat) (m : marg),
+    inst_run n par icls s i m src_set_render_method_inst = step (k_render_method n) par s (op_of_inst i m).
+Proof. exact inst_prog_is_step_lemma. Qed.
+Print Assumptions C20_source_set_render_method_instance.
+
+(** the body repaired by 621a044 (the default written unconditionally on a class-level
+    reset) is distinguished: it is not the model's step, which follows the parent *)
+Theorem C20_source_unconditional_default_refuted :
+  exists (par : nat -> nat) (s : state),
+    cls_run 2 par s 1 MNone
+            [SRaiseIf CBadType; SRaiseIf CUnknown;
+             SIf CFalsy [SIf CHasMethods [SDelOwn; SSetDefault] []] [SSetMethod]]
+    <> step (k_render_method 2) par s (op_of_cls 1 MNone)
+    /\ cls_eff (k_render_method 2) par (fst (step (k_render_method 2) par s (op_of_cls 1 MNone))) 1 = 1%Z.
+Proof. exact cls_unconditional_default_refuted_lemma. Qed.
+Print Assumptions C20_source_unconditional_default_refuted.
